@@ -1,11 +1,14 @@
 /-
   C01 for the files WITHOUT a section-name string table that occur in practice (Spec/ElfNoNames.lean
   `extnumOnly`: one SHT_NULL section header carrying the extended-numbering escapes, `e_shstrndx` =
-  SHN_UNDEF — Linux core dumps with ≥ 0xffff segments): construction, the decoded file header, both
-  counts and every segment are exact; the one section is reported with every header field and its
-  kind exact and with the NAME the library reads through section 0 taken for the name table, i.e. the
-  bytes at file offset `sh_offset[0] + sh_name[0]` (the known finding `no-name-table`).
-  `Proofs/ElfFile.lean` is not changed; its lemmas that do not depend on the name table are reused.
+  SHN_UNDEF — Linux core dumps with ≥ 0xffff segments), proved directly from that shape — nothing is
+  asked of the placement of the regions, of the machine class or of the null section's `sh_name`:
+  construction (no name table is looked for), the decoded file header, both counts and every segment
+  are exact; the one section is reported with every header field, its kind and the EMPTY name.
+  (Before the repair of the finding `no-name-table` the reader took section 0 for the name table and
+  reported the bytes at file offset `sh_offset[0] + sh_name[0]` as the name; `extnum_gen` then had to
+  say so.  Such files are now inside `wfZ` too when the description is complete — disjoint regions,
+  empty name —, where the general theorems of Proofs/ElfFile.lean apply.)
 -/
 import PyElf.Proofs.ElfFile
 import PyElf.Spec.ElfNoNames
@@ -29,7 +32,6 @@ structure XFacts (env : Env) (d : ElfDesc) (s0 : SecDesc) (h0 : Val) : Prop wher
   dec0 : d.S.Elf_Shdr.decodeRaw env [] s0.raw = .ok h0
   null0 : h0.getField "sh_type" = .ok (.str "SHT_NULL")
   flag0 : fieldNat h0 "sh_flags" &&& 0x800 = 0
-  off0 : fieldNat h0 "sh_offset" + s0.nameOff < 2 ^ 63
 
 theorem xfacts_of {env : Env} {d : ElfDesc} (h : extnumOnly env d = true) :
     ∃ s0 h0, XFacts env d s0 h0 := by
@@ -40,11 +42,11 @@ theorem xfacts_of {env : Env} {d : ElfDesc} (h : extnumOnly env d = true) :
     | error e => simp [hdec] at h
     | ok h0 =>
       simp only [hdec, Bool.and_eq_true, Bool.or_eq_true, beq_iff_eq, decide_eq_true_eq, Bool.not_eq_true'] at h
-      obtain ⟨⟨⟨⟨⟨⟨⟨⟨⟨⟨⟨h1, h2⟩, h3⟩, h4⟩, h5⟩, h6⟩, h7⟩, h8⟩, h9⟩, h10⟩, h11⟩, ⟨h12, h13⟩, h14⟩ := h
+      obtain ⟨⟨⟨⟨⟨⟨⟨⟨⟨⟨⟨h1, h2⟩, h3⟩, h4⟩, h5⟩, h6⟩, h7⟩, h8⟩, h9⟩, h10⟩, h11⟩, h12, h13⟩ := h
       obtain ⟨t, ht, hm⟩ := typeIn_unpack h12
       simp only [List.mem_cons, List.not_mem_nil, or_false] at hm
       subst hm
-      exact ⟨s0, h0, ⟨h1, h2, hs, h3, h4, h5, h6, h7, h8, h9, h10, h11, hdec, ht, h13, h14⟩⟩
+      exact ⟨s0, h0, ⟨h1, h2, hs, h3, h4, h5, h6, h7, h8, h9, h10, h11, hdec, ht, h13⟩⟩
   · cases h
 
 section x
@@ -108,11 +110,11 @@ theorem x_getShstrndx (X : XFacts env d s0 h0) (hf : HdrFacts d hdr) :
   rw [hf.shstrndx, X.nox, X.nostr]
   simp [bind, Except.bind, pure, Except.pure]
 
-/-- `ELFFile(stream)`: section 0 is taken for the name table -/
+/-- `ELFFile(stream)`: the file has no name table (SHN_UNDEF); section 0 is not looked at -/
 theorem x_openElf (X : XFacts env d s0 h0) (hL : LayoutFacts d bytes)
     (hd : d.S.Elf_Ehdr.decodeRaw env [] d.ehdrRaw = .ok hdr) :
     openElf env specSF specMC bytes
-      = .ok { data := bytes, cls := d.cls, le := d.le, S := d.S, header := hdr, shstr := some h0 } := by
+      = .ok { data := bytes, cls := d.cls, le := d.le, S := d.S, header := hdr, shstr := none } := by
   obtain ⟨eh, he, hr⟩ := hL.ehdr
   have hf := hdr_facts he hd
   obtain ⟨p, hp⟩ := parse_ehdr_ok hL hd
@@ -121,7 +123,6 @@ theorem x_openElf (X : XFacts env d s0 h0) (hL : LayoutFacts d bytes)
   simp only [bind, Except.bind, specSF, hp, cfgOfHeader_ok hd X.cfg hf]
   have : elfStructs d.cfg = d.S := rfl
   rw [this, x_getShstrndx X hf]
-  simp only [x_getSectionHeader0 X hL hf, x_sectionInit0 X hL]
   rfl
 
 theorem x_numSections (X : XFacts env d s0 h0) (hL : LayoutFacts d bytes) (hf : HdrFacts d hdr) :
@@ -149,44 +150,18 @@ theorem x_numSections (X : XFacts env d s0 h0) (hL : LayoutFacts d bytes) (hf : 
     simp only [hx', Bool.false_eq_true, if_false]
     rfl
 
-/-- the name the library reports for a section whose `sh_name` is `off` when section 0 (at file
-    offset `toff`) is taken for the name table -/
-def nameAt (bytes : Bytes) (toff off : Nat) : Bytes := (firstNul (bytes.drop (toff + off))).getD []
-
-theorem x_getSectionName0 (X : XFacts env d s0 h0) (hL : LayoutFacts d bytes) :
-    getSectionName bytes (some h0) (some h0)
-      = .ok (nameAt bytes (getNatD s0.hdr "sh_offset") s0.nameOff) := by
-  have hsf := x_secFacts X hL
-  have hoff := X.off0
-  unfold getSectionName subscript
-  have h1 : (do let x ← h0.getField "sh_name"; x.asNat) = h0.getNat "sh_name" := rfl
-  simp only [bind, Except.bind] at h1 ⊢
-  have hnm := hsf.nat "sh_name" (by simp [shdrNatKeys])
-  rw [hsf.name] at hnm
-  simp only [Val.getNat, bind, Except.bind] at hnm
-  cases hg : h0.getField "sh_name" with
-  | error e => simp [hg] at hnm
-  | ok x =>
-    simp only [hg] at hnm ⊢
-    rw [hnm]
-    simp only
-    unfold getString
-    rw [hsf.nat "sh_offset" (by simp [shdrNatKeys])]
-    simp only [bind, Except.bind]
-    unfold parseCStringAt seekCheck
-    have : ¬ (fieldNat h0 "sh_offset" + s0.nameOff ≥ 2 ^ 63) := by omega
-    simp only [this, if_false, bind, Except.bind]
-    rw [parseCStringFromStream_eq, ← hsf.raw "sh_offset" (by simp [shdrNatKeys]) (by decide)]
-    unfold nameAt
-    cases firstNul (List.drop (fieldNat h0 "sh_offset" + s0.nameOff) bytes) <;> rfl
+/-- the one section is nameless: `_get_section_name` answers `''` without looking at `sh_name` -/
+theorem x_getSectionName0 (X : XFacts env d s0 h0) (hf : HdrFacts d hdr) :
+    getSectionName env d.S bytes hdr none (some h0) = .ok [] := by
+  unfold getSectionName
+  simp only [x_getShstrndx X hf, bind, Except.bind]
+  rfl
 
 theorem x_getSection0 (X : XFacts env d s0 h0) (hL : LayoutFacts d bytes) (hf : HdrFacts d hdr) :
-    getSection env d.S bytes hdr (some h0) 0
-      = .ok ("NullSection", nameAt bytes (getNatD s0.hdr "sh_offset") s0.nameOff, h0) := by
+    getSection env d.S bytes hdr none 0 = .ok ("NullSection", [], h0) := by
   have hsf := x_secFacts X hL
-  have hmk : makeSection env d.S bytes hdr (some h0) 4 (some h0)
-      = .ok ("NullSection", nameAt bytes (getNatD s0.hdr "sh_offset") s0.nameOff) := by
-    rw [makeSection_succ, x_getSectionName0 X hL]
+  have hmk : makeSection env d.S bytes hdr none 4 (some h0) = .ok ("NullSection", []) := by
+    rw [makeSection_succ, x_getSectionName0 X hf]
     simp only [bind, Except.bind, X.null0, hsf.nat "sh_link" (by simp [shdrNatKeys])]
     rw [kindR_simple (by simp) (x_sectionInit0 X hL)]
     rfl
@@ -195,7 +170,7 @@ theorem x_getSection0 (X : XFacts env d s0 h0) (hL : LayoutFacts d bytes) (hf : 
   rfl
 
 theorem x_numSegments (X : XFacts env d s0 h0) (hL : LayoutFacts d bytes) (hf : HdrFacts d hdr) :
-    numSegments env d.S bytes hdr (some h0) = .ok d.segments.length := by
+    numSegments env d.S bytes hdr none = .ok d.segments.length := by
   by_cases hx : (d.xPhnum || decide (d.segments.length ≥ 0xffff)) = true
   · unfold numSegments
     rw [hf.phnum]
@@ -233,7 +208,7 @@ theorem x_getSegmentHeader (X : XFacts env d s0 h0) (hL : LayoutFacts d bytes) (
 
 /-- a PT_DYNAMIC segment's search for its section finds nothing among the one null section -/
 theorem x_find (X : XFacts env d s0 h0) (hL : LayoutFacts d bytes) (hf : HdrFacts d hdr) (poff : Nat) :
-    makeSegment.find env d.S bytes hdr (some h0) poff [0] = .ok () := by
+    makeSegment.find env d.S bytes hdr none poff [0] = .ok () := by
   have hsf := x_secFacts X hL
   rw [makeSegment.find]
   simp only [x_getSection0 X hL hf, bind, Except.bind]
@@ -244,7 +219,7 @@ theorem x_find (X : XFacts env d s0 h0) (hL : LayoutFacts d bytes) (hf : HdrFact
 
 theorem x_makeSegment (X : XFacts env d s0 h0) (hL : LayoutFacts d bytes) (hf : HdrFacts d hdr) {ph : Val}
     (hsf : SegFacts ph) {ty : Val} (hty : ph.getField "p_type" = .ok ty) :
-    makeSegment env d.S bytes hdr (some h0) ph = .ok (segKindOf ty) := by
+    makeSegment env d.S bytes hdr none ph = .ok (segKindOf ty) := by
   obtain ⟨z, hz⟩ := hsf.off
   obtain ⟨n1, hn1⟩ := dyn_sizeof d.cfg
   obtain ⟨n2, hn2⟩ := sym_sizeof d.cfg
@@ -263,16 +238,19 @@ theorem x_makeSegment (X : XFacts env d s0 h0) (hL : LayoutFacts d bytes) (hf : 
 
 end x
 
-/-- everything at once, over `specSF` / `specMC` -/
+/-- everything at once, over `specSF` / `specMC`.
+    STATEMENT CHANGED with the repair of `no-name-table`: the name reported for the null section is the
+    empty one (it was `nameAt bytes sh_offset[0] sh_name[0]`, bytes of the file read through section 0
+    taken for the name table; `nameAt` and the existential `nm` are gone). -/
 theorem extnum_gen {env : Env} {d : ElfDesc} {bytes : Bytes} {obs : ElfObs}
     (hx : extnumOnly env d = true) (hl : Layout d bytes) (ho : d.observe env = .ok obs) :
-    ∃ f s0 nm, openElf env specSF specMC bytes = .ok f ∧
+    ∃ f s0, openElf env specSF specMC bytes = .ok f ∧
       f.data = bytes ∧ f.cls = d.cls ∧ f.le = d.le ∧ f.S = d.S ∧ f.header = obs.header ∧
-      d.sections = [s0] ∧ nm = nameAt bytes (getNatD s0.hdr "sh_offset") s0.nameOff ∧
+      d.sections = [s0] ∧
       numSections env f.S bytes f.header = .ok 1 ∧
       numSegments env f.S bytes f.header f.shstr = .ok d.segments.length ∧
       iterSegments env f.S bytes f.header f.shstr = .ok obs.segments ∧
-      iterSections env f.S bytes f.header f.shstr = .ok (obs.sections.map fun s => (s.1, nm, s.2.2)) ∧
+      iterSections env f.S bytes f.header f.shstr = .ok (obs.sections.map fun s => (s.1, [], s.2.2)) ∧
       obs.sections.map (·.1) = ["NullSection"] := by
   obtain ⟨s0, h0, X⟩ := xfacts_of hx
   have hL := layout_facts hl
@@ -286,7 +264,7 @@ theorem extnum_gen {env : Env} {d : ElfDesc} {bytes : Bytes} {obs : ElfObs}
       Except.ok.injEq] at hsecs
     rw [← hsecs]
     rfl
-  refine ⟨_, s0, _, x_openElf X hL hd, rfl, rfl, rfl, rfl, rfl, X.one, rfl, x_numSections X hL hF,
+  refine ⟨_, s0, x_openElf X hL hd, rfl, rfl, rfl, rfl, rfl, X.one, x_numSections X hL hF,
     x_numSegments X hL hF, ?_, ?_, ?_⟩
   · -- segments
     obtain ⟨hlen, hall⟩ := mapM_ok_inv _ _ _ hsegs
